@@ -198,7 +198,14 @@ class DtdMapper:
             restrictions = cls.build_restrictions(content.occur, **kwargs)
             cls.build_element(target, content.name, restrictions)
         elif content_type == DtdContentType.SEQ:
-            cls.build_content_tree(target, content, **kwargs)
+            params = cls.build_occurs(content.occur)
+            if params["min_occurs"] == 1:
+                del params["min_occurs"]
+            if params["max_occurs"] == 1:
+                del params["max_occurs"]
+
+            params = cls.merge_occurs(params, kwargs)
+            cls.build_content_tree(target, content, **params)
         elif content_type == DtdContentType.OR:
             params = cls.build_occurs(content.occur)
             params.update(
@@ -207,7 +214,11 @@ class DtdMapper:
                     "min_occurs": 0,
                 }
             )
-            params.update(**kwargs)
+            params = cls.merge_occurs(params, kwargs)
+            for key in ("choice", "min_occurs"):
+                if key in kwargs:
+                    params[key] = kwargs[key]
+
             cls.build_content_tree(target, content, **params)
         else:  # content_type == DtdContentType.PCDATA:
             restrictions = cls.build_restrictions(content.occur, **kwargs)
@@ -267,10 +278,34 @@ class DtdMapper:
         Returns:
             The mapped restrictions instance.
         """
-        params = cls.build_occurs(occur)
-        params.update(kwargs)
+        params = cls.merge_occurs(cls.build_occurs(occur), kwargs)
 
         return Restrictions(**params)
+
+    @classmethod
+    def merge_occurs(cls, params: dict, parent: dict) -> dict:
+        """Merge the restrictions of a particle with the ones of its group.
+
+        A particle can occur as many times as its own occurrences
+        multiplied by the occurrences of the group it belongs to.
+
+        Args:
+            params: The particle restriction arguments
+            parent: The parent group restriction arguments
+
+        Returns:
+            The merged restriction arguments dictionary.
+        """
+        result = {**parent, **params}
+        if "min_occurs" in parent and "min_occurs" in params:
+            result["min_occurs"] = params["min_occurs"] * parent["min_occurs"]
+
+        if "max_occurs" in parent and "max_occurs" in params:
+            result["max_occurs"] = min(
+                sys.maxsize, params["max_occurs"] * parent["max_occurs"]
+            )
+
+        return result
 
     @classmethod
     def build_element(cls, target: Class, name: str, restrictions: Restrictions):
